@@ -583,6 +583,25 @@ theorem ashr_const (x c : BitVec w) (hc : c.toNat < w) (n : Nat) (hn : n = c.toN
   simp [ashr, GoArith.shrE, Nat.not_le.mpr hc, ret]; rfl
 
 
+/-! constant shift counts AT OR BEYOND the operand width: the builder folds `overflows` to true (the count is compared in ITS OWN
+   type before it is narrowed); whatever the narrowed count is - even a value below the width, as for `uint8 << 256` - the result is
+   0 (or the sign fill) -/
+theorem shl_const_big (sx : Bool) (x c z : BitVec w) (f : BitVec 1) (hf : f = 1#1) (hz : z = 0#w) (n : Nat) (hn : w ≤ n) :
+    ret (select (some f) (some z) (shl (some x) (some c))) = .ok (GoArith.shlMath sx x n) := by
+  subst hf hz
+  rw [shl_spec]
+  simp [select, GoArith.shlE, hn, ret]; rfl
+theorem lshr_const_big (x c z : BitVec w) (f : BitVec 1) (hf : f = 1#1) (hz : z = 0#w) (n : Nat) (hn : w ≤ n) :
+    ret (select (some f) (some z) (lshr (some x) (some c))) = .ok (GoArith.shrMath false x n) := by
+  subst hf hz
+  rw [shr_spec]
+  simp [select, GoArith.shrE, hn, ret]; rfl
+theorem ashr_const_big (x c : BitVec w) (hc : c.toNat = w - 1) (hw : 0 < w) (n : Nat) (hn : w ≤ n) :
+    ret (ashr (some x) (some c)) = .ok (GoArith.shrMath true x n) := by
+  rw [shr_spec]
+  have h1 : ¬ w ≤ w - 1 := by omega
+  simp [ashr, GoArith.shrE, hn, hc, h1, ret]; rfl
+
 /-! constant DIVIDENDS: the overflow guard is decided at compile time from the constant `x` -/
 
 theorem quo_s_xconst (x y c0 c1 : BitVec w) (h0 : c0 = 0#w) (h1 : c1 = 1#w) (hx : x ≠ BitVec.intMin w) :
